@@ -80,6 +80,11 @@ CLAIMS = {
    text="Every prose snippet of a static 40-element corpus at every position of a program, every ordered pair of adjacent snippets, and seeded interleavings of generated programs with prose must leave the final variables exactly as the code alone leaves them; statements distributed over named fences must populate one isolated namespace per name (split fences share it), leak nothing into the unnamed program, and a failing statement inside a named fence must not stop the rest of the document.",
    note="The prose corpus is static and hand written from the Mechdown documentation; code blocks and prose are separated by blank lines.",
    ref="6/C10"),
+ "C20": dict(
+   technique="runtime monitoring: independent reference expander (line-exact substitution, CommonMark-style fence rule, cycle = revisit on the current inclusion path) compared byte for byte with mech::read_mech_source_file on generated directory trees; exhaustive enumeration of include-edge subsets",
+   text="For every subset of include edges over 3 files (and sampled / all subsets over 4 files) in 3 directories, with decorated include lines, fenced and brace look-alikes, repeated includes, missing targets, CRLF, missing trailing newline and a symlinked alias, loading the root must give exactly the reference expansion, report reachable cycles as circular includes, never report acyclic graphs as circular, and name missing files.",
+   note="Trees are written under /verif/work/ and removed after each case; when a cycle and a missing file are both reachable either error is accepted.",
+   ref="6/C20"),
 }
 NOT_YET = "not claimed yet: the monitor for this property is still being built in this session (see DESIGN.md section 6 for the planned check)"
 
